@@ -1,26 +1,38 @@
 """C19 — cascade gates fail closed and halted pipelines run nothing further.
 
 Engine B (mc/choice.py): every checkpoint / processor / error-handler of a pipeline is a choice
-point that is asked only when the real Cascade.run actually invokes the callback
-(checkpoint: true | false | raise [| None], processor: f_i(x) | raise, handler: recovery | raise).
+point that is asked only when the real Cascade.run actually invokes the callback.  The answers come
+from a *family per answer class* (the statement speaks of "returned true / returns false / raises",
+never of a particular value or exception):
+    checkpoint : true  in {True, 1, "x", [0]}   false in {False, None, 0, "", []}
+                 raise in {with message, ValueError(), AssertionError(), StopIteration(), KeyError(''),
+                           Exception subclass with str()=='' , Exception subclass that is falsy}
+    processor  : f_i(x) | a falsy-but-valid output (None, 0, "", []) | the raise family
+    handler    : recovery value | a falsy-but-valid recovery value | the raise family
 Static shapes (checkpoint present, handler present, required, amplification factor, halt_on_failure)
-are enumerated exhaustively around it.  The MAPK preset is driven with its real lambdas wrapped by the
-same choice points (delegate | forced false | raise).
+are enumerated exhaustively around it, crossed with the public constructor / per-stage options
+(silent, mode, max_amplification, completion hooks, stage names, timeout_seconds, input signal),
+the construction path (add / insert / add+remove of a decoy stage) and a history prefix on the same
+object or on another object in the same process (earlier run, shared stage objects, run_parallel,
+another cascade class, a run before add_stage / remove_stage); the judged run after a history prefix
+is also compared with the same answers on a fresh object.  The MAPK preset is driven with its real
+lambdas wrapped by the same choice points (delegate | forced answer).
 
 The oracle reads only the invocation log (which callback, which stage, the identical signal object,
-its answer, the object it returned) and the returned CascadeResult.
+its answer class, the object it returned) and the returned CascadeResult.
 """
 from __future__ import annotations
 
+import contextlib
 import itertools
 
 from mc import choice, common
 
-from operon_ai.topology.cascade import Cascade, CascadeResult, CascadeStage, MAPKCascade, StageStatus
+from operon_ai.topology.cascade import (Cascade, CascadeMode, CascadeResult, CascadeStage, MAPKCascade,
+                                        StageStatus)
 
 MAX_AMP = 100.0
 AMPS = (1, 2, 150)
-CP_ANS = ("true", "false", "raise", "none")
 
 
 class Sig:
@@ -35,37 +47,133 @@ class Sig:
         return f"Sig{self.val!r}"
 
 
-# ----------------------------------------------------------------------------- scenarios
+class EmptyStrError(Exception):
+    """an exception whose str() is falsy although it was built with arguments"""
+
+    def __str__(self):
+        return ""
 
 
-def _wrap_cp(ch, log, i, ncp, real=None):
+class FalsyError(Exception):
+    """an exception object that is itself falsy"""
+
+    def __bool__(self):
+        return False
+
+
+# ----------------------------------------------------------------------------- answer families
+# index 0 = benign default; the first entries are the core alphabet, the rest widens each class
+
+CP_ANSWERS = (
+    ("true", "True"), ("false", "False"), ("raise", "msg"), ("false", "None"),
+    ("true", "1"), ("true", "str"), ("true", "list"),
+    ("false", "0"), ("false", "empty-str"), ("false", "empty-list"),
+    ("raise", "empty-msg"), ("raise", "assert"), ("raise", "stop-iteration"), ("raise", "keyerror-empty"),
+    ("raise", "str-empty-subclass"), ("raise", "falsy-exception"),
+)
+FN_ANSWERS = (  # processor ("ok") and handler ("recover") share the family
+    ("ok", "sig"), ("raise", "msg"),
+    ("ok", "None"), ("ok", "0"), ("ok", "empty-str"), ("ok", "empty-list"),
+    ("raise", "empty-msg"), ("raise", "assert"), ("raise", "stop-iteration"), ("raise", "keyerror-empty"),
+    ("raise", "str-empty-subclass"), ("raise", "falsy-exception"),
+)
+# alphabet name -> (checkpoint answers, processor answers, handler answers)
+ALPH = {"core": (3, 2, 2), "none": (4, 2, 2), "widecp": (len(CP_ANSWERS), 2, 2),
+        "wide": (len(CP_ANSWERS), len(FN_ANSWERS), len(FN_ANSWERS))}
+CORE_N = {"cp": 3, "proc": 2, "err": 2}
+
+
+def _mk_val(flav):
+    if flav == "True":
+        return True
+    if flav == "False":
+        return False
+    if flav == "None":
+        return None
+    if flav == "1":
+        return 1
+    if flav == "str":
+        return "x"
+    if flav == "list":
+        return [0]
+    if flav == "0":
+        return 0
+    if flav == "empty-str":
+        return ""
+    if flav == "empty-list":
+        return []
+    raise common.HarnessError(f"unknown value flavour {flav}")
+
+
+def _mk_exc(flav, what, default_cls):
+    if flav == "msg":
+        return default_cls(what)
+    if flav == "empty-msg":
+        return ValueError()
+    if flav == "assert":
+        try:
+            assert what is None  # a failing bare assert
+        except AssertionError as e:
+            return e
+        return AssertionError()
+    if flav == "stop-iteration":
+        return StopIteration()
+    if flav == "keyerror-empty":
+        return KeyError("")
+    if flav == "str-empty-subclass":
+        return EmptyStrError(what)
+    if flav == "falsy-exception":
+        return FalsyError(what)
+    raise common.HarnessError(f"unknown exception flavour {flav}")
+
+
+class _Env:
+    """one execution: chooser, invocation log, current alphabet; passive = callbacks answer the default
+    without asking / logging (used while a prefix entry point drives them from worker threads)"""
+
+    def __init__(self, ch, alph):
+        self.ch = ch
+        self.log = []
+        self.passive = False
+        self.set_alph(alph)
+
+    def set_alph(self, alph):
+        self.ncp, self.npr, self.ner = ALPH[alph]
+
+
+def _wrap_cp(env, i, real=None):
     def cp(s):
-        a = ch.pick(ncp, f"cp{i}")
-        if a == 0:
-            if real is None:
-                log.append(("cp", i, s, "true", True))
-                return True
+        if env.passive:
+            return True
+        a = env.ch.pick(env.ncp, f"cp{i}")
+        if a == 0 and real is not None:
             try:
                 out = real(s)
             except Exception:
-                log.append(("cp", i, s, "raise", None))
+                env.log.append(("cp", i, s, "raise", None, "real"))
                 raise
-            log.append(("cp", i, s, "true" if out is True else ("false" if not out else "truthy"), out))
+            env.log.append(("cp", i, s, "true" if out else "false", out, "real"))
             return out
-        ans = CP_ANS[a]
-        log.append(("cp", i, s, ans, None))
-        if ans == "false":
-            return False
-        if ans == "none":
-            return None
-        raise RuntimeError(f"gate {i} failed")
+        cls, flav = CP_ANSWERS[a]
+        if cls == "raise":
+            env.log.append(("cp", i, s, "raise", None, flav))
+            raise _mk_exc(flav, f"gate {i} failed", RuntimeError)
+        out = _mk_val(flav)
+        env.log.append(("cp", i, s, cls, out, flav))
+        return out
 
     return cp
 
 
-def _wrap_proc(ch, log, i, real=None):
+def _wrap_proc(env, i, real=None):
     def proc(s):
-        a = ch.pick(2, f"proc{i}")
+        if env.passive:
+            return Sig(("p", i))
+        a = env.ch.pick(env.npr, f"proc{i}")
+        cls, flav = FN_ANSWERS[a]
+        if cls == "raise":
+            env.log.append(("proc", i, s, "raise", None, flav))
+            raise _mk_exc(flav, f"stage {i} crashed", ValueError)
         if a == 0:
             if real is None:
                 out = Sig(("f", i, s.val if isinstance(s, Sig) else repr(s)))
@@ -73,92 +181,313 @@ def _wrap_proc(ch, log, i, real=None):
                 try:
                     out = real(s)
                 except Exception:
-                    log.append(("proc", i, s, "raise", None))
+                    env.log.append(("proc", i, s, "raise", None, "real"))
                     raise
-            log.append(("proc", i, s, "ok", out))
-            return out
-        log.append(("proc", i, s, "raise", None))
-        raise ValueError(f"stage {i} crashed")
+        else:
+            out = _mk_val(flav)
+        env.log.append(("proc", i, s, "ok", out, flav))
+        return out
 
     return proc
 
 
-def _wrap_err(ch, log, i):
+def _wrap_err(env, i):
     def on_error(e):
-        a = ch.pick(2, f"err{i}")
-        if a == 0:
-            out = Sig(("r", i))
-            log.append(("err", i, e, "recover", out))
-            return out
-        log.append(("err", i, e, "raise", None))
-        raise KeyError(f"recovery {i} failed")
+        if env.passive:
+            return Sig(("p", i))
+        a = env.ch.pick(env.ner, f"err{i}")
+        cls, flav = FN_ANSWERS[a]
+        if cls == "raise":
+            env.log.append(("err", i, e, "raise", None, flav))
+            raise _mk_exc(flav, f"recovery {i} failed", KeyError)
+        out = Sig(("r", i)) if a == 0 else _mk_val(flav)
+        env.log.append(("err", i, e, "recover", out, flav))
+        return out
 
     return on_error
 
 
-def run_synthetic(shape, ch):
-    """shape = (halt, ncp, ((cp?, handler?, required?, amp), ...))"""
-    halt, ncp, stages = shape
-    log = []
-    inp = Sig(("in",))
-    casc = Cascade("c", max_amplification=MAX_AMP, halt_on_failure=bool(halt), silent=True)
-    meta = []
-    for i, (cp, h, req, amp) in enumerate(stages):
-        casc.add_stage(CascadeStage(
-            name=f"s{i}",
-            processor=_wrap_proc(ch, log, i),
-            amplification=float(amp),
-            checkpoint=_wrap_cp(ch, log, i, ncp) if cp else None,
-            on_error=_wrap_err(ch, log, i) if h else None,
-            required=bool(req),
-        ))
-        meta.append((f"s{i}", bool(cp), bool(h), bool(req), float(amp)))
+# ----------------------------------------------------------------------------- scenarios
+
+
+class _Null:
+    def write(self, s):
+        return len(s)
+
+    def flush(self):
+        pass
+
+
+_NULL = _Null()
+INPUTS = {"none": None, "zero": 0, "empty": ""}
+DECOY = 90  # stage index of a stage that was removed again before the judged run
+TWO_RUN = ("same", "shared", "grow", "shrink")
+
+
+def _maxamp(o):
+    m = o.get("maxamp", MAX_AMP)
+    return float(m)  # "inf" -> inf
+
+
+def _cascade_kwargs(o, halt):
+    kw = dict(max_amplification=_maxamp(o), halt_on_failure=bool(halt), silent=o.get("silent", True))
+    if "mode" in o:
+        kw["mode"] = CascadeMode(o["mode"])
+    if o.get("hooks"):
+        kw["on_stage_complete"] = lambda r: None
+        kw["on_cascade_complete"] = lambda r: None
+    return kw
+
+
+def _name(o, i):
+    n = o.get("names")
+    return f"s{i}" if n is None else ("s" if n == "same" else "")
+
+
+def _stage(env, i, st, o, name=None):
+    cp, h, req, amp = st
+    kw = {}
+    if "timeout" in o:
+        kw["timeout_seconds"] = None if o["timeout"] == "none" else o["timeout"]
+    return CascadeStage(
+        name=_name(o, i) if name is None else name,
+        processor=_wrap_proc(env, i),
+        amplification=float(amp),
+        checkpoint=_wrap_cp(env, i) if cp else None,
+        on_error=_wrap_err(env, i) if h else None,
+        required=bool(req),
+        **kw,
+    )
+
+
+def _meta(o, stages, first=0):
+    return [(_name(o, first + k), bool(cp), bool(h), bool(req), float(amp)) for k, (cp, h, req, amp) in enumerate(stages)]
+
+
+def _assemble(casc, objs, env, o):
+    """put the stage objects into the cascade along the construction path named by o['build']"""
+    b = o.get("build")
+    if b is None:
+        for s in objs:
+            casc.add_stage(s)
+    elif b == "insert-rev":
+        for s in reversed(objs):
+            casc.insert_stage(0, s)
+    elif b == "insert-first":
+        for s in objs[1:]:
+            casc.add_stage(s)
+        if objs:
+            casc.insert_stage(0, objs[0])
+    elif b in ("decoy-front", "decoy-mid", "decoy-end"):
+        decoy = _stage(env, DECOY, (1, 1, 1, 2), o, name="decoy")
+        at = {"decoy-front": 0, "decoy-mid": (len(objs) + 1) // 2, "decoy-end": len(objs)}[b]
+        for k, s in enumerate(objs):
+            if k == at:
+                casc.add_stage(decoy)
+            casc.add_stage(s)
+        if at == len(objs):
+            casc.add_stage(decoy)
+        casc.remove_stage("decoy")
+    else:
+        raise common.HarnessError(f"unknown build path {b}")
+
+
+def _run(casc, inp):
     try:
-        res = casc.run(inp)
+        return casc.run(inp)
     except Exception as e:  # noqa: BLE001
-        res = e
-    return judge(bool(halt), meta, log, inp, res)
+        return e
+
+
+def _struct(x):
+    if isinstance(x, Sig):
+        return ("Sig", x.val)
+    if isinstance(x, list):
+        return ("list", tuple(x))
+    return x
+
+
+def _obs(res, log):
+    """what a run showed, identity-free (for the fresh-object comparison)"""
+    calls = tuple((e[0], e[1], e[3], e[5]) for e in log)
+    if not isinstance(res, CascadeResult):
+        return (calls, "raised", type(res).__name__)
+    return (calls, res.success, _struct(res.final_output), res.total_amplification, res.blocked_at,
+            tuple((r.stage_name, r.status.value, r.amplification_factor) for r in res.stage_results))
+
+
+class _Script:
+    """replays a recorded answer list; a different question than recorded is remembered, not an error"""
+
+    def __init__(self, answers):
+        self.ans = answers
+        self.k = 0
+        self.diverged = None
+
+    def pick(self, n, label=""):
+        k = self.k
+        self.k += 1
+        if k > 256:
+            raise choice.TooManyChoices(label)
+        if k < len(self.ans) and self.ans[k][1] == label and self.ans[k][2] < n:
+            return self.ans[k][2]
+        if self.diverged is None:
+            self.diverged = (k, label)
+        return 0
+
+
+def run_synthetic(shape, ch):
+    """shape = (halt, alphabet, ((cp?, handler?, required?, amp), ...), ((option, value), ...))"""
+    halt, alph, stages, opts = shape
+    o = dict(opts)
+    if o.get("silent", True):
+        return _run_synthetic(halt, alph, stages, o, ch)
+    with contextlib.redirect_stdout(_NULL):
+        return _run_synthetic(halt, alph, stages, o, ch)
+
+
+def _run_synthetic(halt, alph, stages, o, ch):
+    alph1, _, alph2 = alph.partition(">")  # "a>b": history run with alphabet a, judged run with alphabet b
+    env = _Env(ch, alph1)
+    hist = o.get("hist")
+    maxamp = _maxamp(o)
+    inp = INPUTS[o["input"]] if "input" in o else Sig(("in",))
+    L = len(stages)
+    objs = [_stage(env, i, st, o) for i, st in enumerate(stages)]
+    meta = _meta(o, stages)
+    casc = Cascade("c", **_cascade_kwargs(o, halt))
+    v = []
+    outcomes = []
+    ncb = 0
+    obs_opt = False
+
+    def merge(j):
+        nonlocal ncb, obs_opt
+        for key, what in j[0]:
+            if all(k != key for k, _ in v):
+                v.append((key, what))
+        outcomes.append(j[1])
+        ncb += j[2]
+        obs_opt = obs_opt or j[3]
+
+    if hist in ("grow", "shrink"):
+        inp1 = Sig(("in1",))
+        if hist == "grow":
+            _assemble(casc, objs[:-1], env, o)
+            merge(judge(bool(halt), meta[:-1], env.log, inp1, _run(casc, inp1), maxamp))
+            casc.add_stage(objs[-1])
+        else:
+            extra = (1, 1, 1, 2)
+            _assemble(casc, objs + [_stage(env, L, extra, o, name="x")], env, o)
+            merge(judge(bool(halt), meta + [("x", True, True, True, 2.0)], env.log, inp1, _run(casc, inp1), maxamp))
+            casc.remove_stage("x")
+    else:
+        _assemble(casc, objs, env, o)
+        if hist == "same":
+            inp1 = Sig(("in1",))
+            merge(judge(bool(halt), meta, env.log, inp1, _run(casc, inp1), maxamp))
+            casc.get_statistics()
+            casc.get_history()
+        elif hist == "shared":
+            other = Cascade("other", **_cascade_kwargs(o, halt))
+            for s in objs:
+                other.add_stage(s)
+            inp1 = Sig(("in1",))
+            merge(judge(bool(halt), meta, env.log, inp1, _run(other, inp1), maxamp))
+        elif hist == "parallel":
+            if L:
+                env.passive = True
+                try:
+                    casc.run_parallel(Sig(("in1",)))
+                finally:
+                    env.passive = False
+        elif hist == "mapk":
+            MAPKCascade(silent=True).run({"active": False})
+            side = Cascade("side", halt_on_failure=not halt, silent=True)
+            side.add_stage(CascadeStage(name=_name(o, 0), processor=lambda x: x, checkpoint=lambda x: 1 // 0))
+            side.run(inp)
+        elif hist is not None:
+            raise common.HarnessError(f"unknown history {hist}")
+
+    k0 = len(ch.trace)
+    env.log = []
+    if alph2:
+        env.set_alph(alph2)
+    res = _run(casc, inp)
+    log = env.log
+    merge(judge(bool(halt), meta, log, inp, res, maxamp))
+
+    if hist is not None:
+        # the same answers on a fresh object must show the same run
+        script = _Script(ch.trace[k0:])
+        env2 = _Env(script, alph2 or alph1)
+        o2 = {k: x for k, x in o.items() if k != "hist"}
+        fresh = Cascade("c", **_cascade_kwargs(o2, halt))
+        _assemble(fresh, [_stage(env2, i, st, o2) for i, st in enumerate(stages)], env2, o2)
+        res2 = _run(fresh, inp)
+        a, b = _obs(res, log), _obs(res2, env2.log)
+        if script.diverged is not None or script.k != len(script.ans) or a != b:
+            what = "callbacks" if a[0] != b[0] or script.diverged is not None or script.k != len(script.ans) else "result"
+            merge(([(f"history-dependent:{what}:after-{hist}",
+                     f"after history '{hist}' the run showed {a!r} but a fresh object with the same answers showed {b!r} "
+                     f"| stages={[m[1:] for m in meta]} halt_on_failure={bool(halt)}")], None, 0, False))
+            outcomes.pop()
+        ncb += len(env2.log)
+    outcome = outcomes[0] if len(outcomes) == 1 else tuple(outcomes)
+    return v, outcome, ncb, obs_opt
 
 
 MAPK_INPUTS = {"str": "stimulus", "dict": {"active": False, "tier": 9}, "none": None}
 
 
 def run_mapk(shape, ch):
-    """shape = (halt, (t1, t2, t3), input name): the preset's own lambdas behind the choice points"""
-    halt, tiers, iname = shape
-    log = []
+    """shape = (halt, alphabet, (t1, t2, t3), input name, options): the preset's own lambdas behind the choice points"""
+    halt, alph, tiers, iname, opts = shape
+    o = dict(opts)
+    if o.get("silent", True):
+        return _run_mapk(halt, alph, tiers, iname, o, ch)
+    with contextlib.redirect_stdout(_NULL):
+        return _run_mapk(halt, alph, tiers, iname, o, ch)
+
+
+def _run_mapk(halt, alph, tiers, iname, o, ch):
+    env = _Env(ch, alph)
     inp = MAPK_INPUTS[iname]
     casc = MAPKCascade(tier1_amplification=float(tiers[0]), tier2_amplification=float(tiers[1]), tier3_amplification=float(tiers[2]),
-                       max_amplification=MAX_AMP, halt_on_failure=bool(halt), silent=True)
+                       **_cascade_kwargs(o, halt))
     meta = []
     for i, st in enumerate(casc._stages):
         meta.append((st.name, st.checkpoint is not None, st.on_error is not None, bool(st.required), float(tiers[i])))
-        st.processor = _wrap_proc(ch, log, i, st.processor)
+        st.processor = _wrap_proc(env, i, st.processor)
         if st.checkpoint is not None:
-            st.checkpoint = _wrap_cp(ch, log, i, 3, st.checkpoint)
-    try:
-        res = casc.run(inp)
-    except Exception as e:  # noqa: BLE001
-        res = e
-    return judge(bool(halt), meta, log, inp, res)
+            st.checkpoint = _wrap_cp(env, i, st.checkpoint)
+    res = _run(casc, inp)
+    return judge(bool(halt), meta, env.log, inp, res, _maxamp(o))
 
 
 # ----------------------------------------------------------------------------- oracle
 
 
-def judge(halt, meta, log, inp, res):
-    """-> (violations [(key, what)], outcome, n_callbacks)"""
+def judge(halt, meta, log, inp, res, maxamp=MAX_AMP):
+    """-> (violations [(key, what)], outcome, n_callbacks, observed-optional-block-continues)"""
     v = []
     H = f"halt_on_failure={halt}"
     L = len(meta)
+    full_log = log
 
     def add(key, what):
         if all(k != key for k, _ in v):
-            v.append((key, what + f" | stages={[m[1:] for m in meta]} {H} log={[(e[0], e[1], e[3]) for e in log]}"))
+            v.append((key, what + f" | stages={[m[1:] for m in meta]} {H} max_amplification={maxamp} "
+                      f"log={[(e[0], e[1], e[3], e[5]) for e in full_log]}"))
 
     if not isinstance(res, CascadeResult):
         add(f"run-raised:{type(res).__name__}", f"Cascade.run raised {res!r}")
-        return v, ("raised", type(res).__name__), len(log)
+        return v, ("raised", type(res).__name__), len(log), False
+
+    stray = [e for e in log if not 0 <= e[1] < L]
+    if stray:
+        add(f"callback-of-absent-stage:{stray[0][0]}", f"{stray[0][0]} of a stage that is not part of the pipeline (index {stray[0][1]}) was invoked")
+        log = [e for e in log if 0 <= e[1] < L]
 
     cps = {}
     for j, e in enumerate(log):
@@ -179,7 +508,7 @@ def judge(halt, meta, log, inp, res):
             why = "gate-not-evaluated"
         elif any(c[3] == "raise" for _, c in mine):
             why = "gate-raised"
-        elif any(c[3] in ("false", "none") for _, c in mine):
+        elif any(c[3] == "false" for _, c in mine):
             why = "gate-returned-false"
         elif all(c[2] is not s for _, c in mine):
             why = "gate-saw-other-signal"
@@ -201,7 +530,7 @@ def judge(halt, meta, log, inp, res):
             if e[0] == "cp":
                 if e[3] == "raise":
                     st = "gate-raised"
-                elif e[3] in ("false", "none"):
+                elif e[3] == "false":
                     st = "blocked"
                 elif st == "not-run":
                     st = "gate-passed"
@@ -267,19 +596,25 @@ def judge(halt, meta, log, inp, res):
     for r in res.stage_results:
         if r.status == StageStatus.COMPLETED:
             prod *= r.amplification_factor
-    exp = min(MAX_AMP, prod)
+    exp = min(maxamp, prod)
     if res.total_amplification != exp:
-        add("amplification-mismatch" + (":unclamped" if res.total_amplification > MAX_AMP else ""),
-            f"total_amplification={res.total_amplification} expected min({MAX_AMP}, {prod})={exp}")
-    byname = {m[0]: (i, m) for i, m in enumerate(meta)}
-    for r in res.stage_results:
-        if r.status == StageStatus.COMPLETED and r.stage_name in byname:
-            i, m = byname[r.stage_name]
-            if ground[i] == "completed" and r.amplification_factor != m[4]:
-                add("stage-factor-mismatch", f"stage {i} completed normally, configured factor {m[4]}, reported {r.amplification_factor}")
+        add("amplification-mismatch" + (":unclamped" if res.total_amplification > maxamp else ""),
+            f"total_amplification={res.total_amplification} expected min({maxamp}, {prod})={exp}")
+    # normally completed stages report their configured factor (results <-> stages by name; by position when names repeat)
+    unique = len({m[0] for m in meta}) == L
+    byname = {m[0]: i for i, m in enumerate(meta)}
+    for k, r in enumerate(res.stage_results):
+        if r.status != StageStatus.COMPLETED:
+            continue
+        if unique:
+            i = byname.get(r.stage_name)
+        else:
+            i = k if len(res.stage_results) == L and r.stage_name == meta[k][0] else None
+        if i is not None and ground[i] == "completed" and r.amplification_factor != meta[i][4]:
+            add("stage-factor-mismatch", f"stage {i} completed normally, configured factor {meta[i][4]}, reported {r.amplification_factor}")
 
     outcome = (res.success, res.blocked_at is not None, statuses, res.total_amplification)
-    return v, outcome, len(log), obs_opt
+    return v, outcome, len(full_log), obs_opt
 
 
 # ----------------------------------------------------------------------------- enumeration
@@ -288,39 +623,116 @@ STAGE_SHAPES = [(cp, h, req, amp) for cp in (1, 0) for h in (0, 1) for req in (1
 CTRL_SHAPES = [(cp, h, req) for cp in (1, 0) for h in (0, 1) for req in (1, 0)]
 AMP_PATTERNS = [(1, 2, 150, 2, 1), (2, 150, 1, 150, 2), (150, 1, 2, 1, 150)]
 
+# non-default values of the public options / environment dimensions (each an axis of the scenario)
+OPT_AXES = (
+    ("silent", (False,)),
+    ("mode", ("parallel", "conditional", "amplifying")),
+    ("maxamp", (1, 2.5, 1e9, "inf")),
+    ("hooks", (1,)),
+    ("names", ("same", "empty")),
+    ("timeout", (0, "none")),
+    ("input", ("none", "zero", "empty")),
+    ("build", ("insert-rev", "insert-first", "decoy-front", "decoy-mid", "decoy-end")),
+)
+HIST = ("same", "shared", "parallel", "mapk", "grow", "shrink")
+OPT_SINGLES = [((a, x),) for a, vals in OPT_AXES for x in vals]
+OPT_PAIRS = [((a, x), (b, y)) for (a, va), (b, vb) in itertools.combinations(OPT_AXES, 2) for x in va for y in vb]
+
+
+def ctrl_pipelines(L):
+    """8^L control shapes, one amplification pattern each, rotating (the factor never steers control flow)"""
+    for ci, ctrl in enumerate(itertools.product(CTRL_SHAPES, repeat=L)):
+        pat = AMP_PATTERNS[ci % 3]
+        yield tuple(c + (pat[i],) for i, c in enumerate(ctrl))
+
 
 def bounds(tier):
-    # full: all 24^L static stage shapes; pat: 8^L control shapes x 3 amplification patterns (length 5: 1 rotating pattern)
-    if tier == "quick":
-        return dict(full=(1, 2, 3), pat={}, none_answer_upto=2)
-    return dict(full=(1, 2, 3), pat={4: None, 5: 3}, none_answer_upto=2)
+    """family -> {pipeline length: deviation bound (None = complete answer tree)}"""
+    q = tier == "quick"
+    return {
+        # core alphabet, all 24^L static shapes / 8^L control shapes x 3 amplification patterns (L=5: 1 rotating pattern)
+        "core-full": {1: None, 2: None, 3: None},
+        "core-none-answer": {1: None, 2: None},
+        "core-pattern": {} if q else {4: None, 5: 3},
+        # widened answer families on the 8^L control shapes
+        "wide-checkpoint": {1: None, 2: None, 3: None} if q else {1: None, 2: None, 3: None, 4: 3},
+        "wide-all": {1: None, 2: None} if q else {1: None, 2: None, 3: 2},
+        # one non-default option / two non-default options, core alphabet
+        "option": {1: None, 2: None, 3: None},
+        "option-pair": {1: None, 2: None} if q else {1: None, 2: None, 3: None},
+        # one non-default option with widened answers
+        "option-x-wide-checkpoint": {1: None, 2: None},
+        "option-x-wide-all": {1: None} if q else {1: None, 2: 3},
+        # history prefixes (two-run kinds: both answer trees) and their crossings
+        "history": {1: None, 2: None},
+        "history-long": {} if q else {3: None},  # without the add_stage / remove_stage prefixes
+        "history-wide-first-run": {1: None, 2: None},
+        "history-x-option": {1: None} if q else {1: None, 2: None},
+        "mapk": {3: None},
+    }
 
 
 def scenarios(tier):
-    """-> list of (kind, shape, max_dev)"""
+    """-> list of (kind, shape, max_dev, family)"""
     bd = bounds(tier)
     out = []
-    for L in bd["full"]:
+    for L, dev in bd["core-full"].items():
         for stages in itertools.product(STAGE_SHAPES, repeat=L):
             for halt in (1, 0):
-                out.append(("syn", (halt, 3, stages), None))
-                if L <= bd["none_answer_upto"] and any(s[0] for s in stages):
-                    out.append(("syn", (halt, 4, stages), None))
-    for L, dev in sorted(bd["pat"].items()):
+                out.append(("syn", (halt, "core", stages, ()), dev, "core-full"))
+                if L in bd["core-none-answer"] and any(s[0] for s in stages):
+                    out.append(("syn", (halt, "none", stages, ()), dev, "core-none-answer"))
+    for L, dev in sorted(bd["core-pattern"].items()):
         for ci, ctrl in enumerate(itertools.product(CTRL_SHAPES, repeat=L)):
-            # length 5: one amplification pattern per control shape, rotating (the factor never steers control flow)
             for pat in (AMP_PATTERNS if L <= 4 else [AMP_PATTERNS[ci % 3]]):
                 stages = tuple(c + (pat[i],) for i, c in enumerate(ctrl))
                 for halt in (1, 0):
-                    out.append(("syn", (halt, 3, stages), dev))
+                    out.append(("syn", (halt, "core", stages, ()), dev, "core-pattern"))
+
+    def ctrl_family(fam, alph, optss, only_cp=False):
+        for L, dev in sorted(bd[fam].items()):
+            for stages in ctrl_pipelines(L):
+                if only_cp and not any(s[0] for s in stages):
+                    continue
+                for halt in (1, 0):
+                    for opts in optss:
+                        out.append(("syn", (halt, alph, stages, opts), dev, fam))
+
+    ctrl_family("wide-checkpoint", "widecp", [()], only_cp=True)
+    ctrl_family("wide-all", "wide", [()])
+    ctrl_family("option", "core", OPT_SINGLES)
+    ctrl_family("option-pair", "core", OPT_PAIRS)
+    ctrl_family("option-x-wide-checkpoint", "widecp", OPT_SINGLES, only_cp=True)
+    ctrl_family("option-x-wide-all", "wide", OPT_SINGLES)
+    ctrl_family("history", "core", [(("hist", h),) for h in HIST])
+    ctrl_family("history-long", "core", [(("hist", h),) for h in HIST if h not in ("grow", "shrink")])
+    ctrl_family("history-wide-first-run", "widecp>core", [(("hist", h),) for h in ("same", "shared")], only_cp=True)
+    ctrl_family("history-x-option", "core", [s + (("hist", h),) for h in HIST for s in OPT_SINGLES])
+
+    mapk_opts = [()] + [s for s in OPT_SINGLES if s[0][0] in ("silent", "mode", "maxamp", "hooks")]
     for halt in (1, 0):
         for tiers in ((10, 10, 10), (150, 1, 1), (2, 3, 4)):
             for iname in MAPK_INPUTS:
-                out.append(("mapk", (halt, tiers, iname), None))
+                out.append(("mapk", (halt, "core", tiers, iname, ()), None, "mapk"))
+                out.append(("mapk", (halt, "widecp", tiers, iname, ()), None, "mapk"))
+                if tiers == (10, 10, 10):
+                    out.append(("mapk", (halt, "wide", tiers, iname, ()), None, "mapk"))
+                for opts in mapk_opts[1:]:
+                    out.append(("mapk", (halt, "widecp", tiers, iname, opts), None, "mapk"))
     return out
 
 
 RUNNERS = {"syn": run_synthetic, "mapk": run_mapk}
+
+
+def _novel(kind, shape, ch):
+    """does this execution differ from every execution of the core families?  (non-default options / history:
+    any non-default answer; widened alphabets on default options: an answer outside the core alphabet)"""
+    opts = shape[-1]
+    alph = shape[1]
+    if opts or alph in ("core", "none"):
+        return any(ch.choices)
+    return any(c >= CORE_N[label.rstrip("0123456789")] for (_n, label, c) in ch.trace)
 
 
 def work(chunk):
@@ -328,22 +740,23 @@ def work(chunk):
     outcomes = set()
     viol = {}
     sample = None
-    for kind, shape, dev in chunk:
+    for kind, shape, dev, fam in chunk:
         fn = RUNNERS[kind]
-        for ch, r in choice.explore(lambda ch_: fn(shape, ch_), max_dev=dev, horizon=64):
+        nfam = 0
+        for ch, r in choice.explore(lambda ch_: fn(shape, ch_), max_dev=dev, horizon=96):
             if r[0] == "too-many-choices":
                 raise common.HarnessError(f"choice horizon exceeded for {shape}")
-            vs, outcome, ncb, obs_opt = r if len(r) == 4 else (r[0], r[1], r[2], False)
-            c["executions"] += 1
+            vs, outcome, ncb, obs_opt = r
+            nfam += 1
             c["callbacks"] += ncb
-            if any(ch.choices):
+            if _novel(kind, shape, ch):
                 c["nontrivial"] += 1
             if obs_opt:
                 c["obs_optional_block_continues"] += 1
             outcomes.add(outcome)
             if vs:
                 lab = ch.labelled()
-                sk = (len(shape[-1]) if kind == "syn" else 9, len(lab), repr(shape), repr(lab))
+                sk = (len(shape[-1]), len(shape[2]) if kind == "syn" else 9, len(lab), repr(shape), repr(lab))
                 for key, what in vs:
                     cur = viol.get(key)
                     if cur is None:
@@ -354,6 +767,8 @@ def work(chunk):
                             cur[1], cur[2], cur[3] = sk, what, {"kind": kind, "shape": shape, "answers": lab}
             elif sample is None and len(ch.trace) >= 3 and any(ch.choices):
                 sample = {"kind": kind, "shape": shape, "answers": ch.labelled(), "outcome": repr(outcome)}
+        c["executions"] += nfam
+        c["exec:" + fam] = c.get("exec:" + fam, 0) + nfam
     return {"c": c, "outcomes": outcomes, "viol": viol, "sample": sample}
 
 
@@ -370,8 +785,9 @@ def report_n(ctx, key, what, case, n):
 def run(ctx):
     scen = scenarios(ctx.tier)
     scen = common.rotate(scen, ctx.seed * 101)
-    chunks = common.chunked(scen, 16 * 8)
-    results = common.pmap(work, chunks)
+    nchunks = 16 * 24
+    chunks = [scen[j::nchunks] for j in range(nchunks)]  # round robin: heavy neighbouring shapes are spread out
+    results = common.pmap(work, [c for c in chunks if c])
     tot = {}
     viol = {}
     samples = []
@@ -394,36 +810,51 @@ def run(ctx):
         report_n(ctx, key, what, case, cnt)
     for s in sorted(samples, key=repr)[ctx.seed % 3::max(1, len(samples) // 5)][:6]:
         ctx.sample(s)
+    fam_exec = {k[5:]: n for k, n in sorted(tot.items()) if k.startswith("exec:")}
     for k, n in tot.items():
-        ctx.stats[k] += n
+        if not k.startswith("exec:"):
+            ctx.stats[k] += n
     if tot.get("obs_optional_block_continues"):
         ctx.note(f"{tot['obs_optional_block_continues']} halting runs continued after a blocked OPTIONAL stage (only required stages are judged)")
     bd = bounds(ctx.tier)
-    capped = {L: d for L, d in bd["pat"].items() if d is not None}
+    capped = {f"{fam} L={L}": d for fam, m in bd.items() for L, d in m.items() if d is not None}
     ctx.coverage.update(
         states=tot["executions"],
         transitions=tot["callbacks"],
         traces_validated_against_impl=tot["executions"],
         evaluations=tot["executions"],
         distinct_nontrivial=tot["nontrivial"],
-        rule="static shapes (per stage: checkpoint?, handler?, required?, factor in {1,2,150}; halt_on_failure; max_amplification=100) are "
-        "enumerated; for each the answer tree of the invoked callbacks (checkpoint true/false/raise[/None], processor ok/raise, handler "
-        "recover/raise) is explored by the choice engine on the real Cascade.run; a state = one (shape, answer sequence) execution, a "
-        "transition = one callback invocation; non-trivial = at least one non-default answer (every answer sequence is distinct)",
+        rule="static shapes (per stage: checkpoint?, handler?, required?, factor in {1,2,150}; halt_on_failure) are enumerated; for each "
+        "the answer tree of the invoked callbacks is explored by the choice engine on the real Cascade.run. Core alphabet: checkpoint "
+        "true/false/raise[/None], processor ok/raise, handler recover/raise. Widened families: checkpoint true in {True,1,'x',[0]}, false in "
+        "{False,None,0,'',[]}, raise in {message, ValueError(), bare assert, StopIteration(), KeyError(''), str()=='' subclass, falsy "
+        "exception}; processor / handler additionally return None,0,'',[] or raise any of the raise family. Option axes (one or two "
+        "non-default at a time): silent, mode, max_amplification in {1,2.5,100,1e9,inf}, completion hooks, stage names (distinct/"
+        "identical/empty), timeout_seconds, input signal (object/None/0/''), construction path (add, insert, decoy added and removed). "
+        "History prefixes: earlier run on the same object, on another cascade sharing the stage objects, run_parallel, another cascade "
+        "class in the process, a run before add_stage, a run before remove_stage; the judged run is compared with the same answers on "
+        "a fresh object. A state = one (scenario, answer sequence) execution, a transition = one callback invocation; non-trivial = "
+        "at least one non-default answer, and for widened alphabets under default options at least one answer outside the core "
+        "alphabet (so that no counted execution repeats a core-family execution)",
         exhaustive=not capped,
         static_scenarios=len(scen),
-        pipeline_lengths_full_product=list(bd["full"]),
-        pipeline_lengths_pattern_amplification={str(k): ("unbounded" if v is None else f"<= {v} deviations") for k, v in bd["pat"].items()},
+        executions_per_family=fam_exec,
+        families={fam: {str(L): ("complete answer tree" if d is None else f"<= {d} deviations") for L, d in m.items()} for fam, m in bd.items()},
+        option_axes={a: list(map(str, vals)) for a, vals in OPT_AXES},
+        history_prefixes=list(HIST),
     )
     if capped:
-        ctx.coverage["caps_hit"] = "deviation bound " + ", ".join(f"{d} at length {L}" for L, d in capped.items()) + \
-            " (shorter pipelines: complete answer trees)"
+        ctx.coverage["caps_hit"] = "deviation bound " + ", ".join(f"{d} at {k}" for k, d in capped.items()) + \
+            " (all other families / lengths: complete answer trees)"
     ctx.assumptions += [
-        "amplification factors >= 1 (below 1 a running clamp and a final clamp differ and the statement does not say which)",
-        "callbacks raise Exception subclasses; on_stage_complete / on_cascade_complete hooks unset; sequential run() only",
+        "amplification factors >= 1 and max_amplification >= 1 (below 1 a running clamp and a final clamp differ and the statement does not say which)",
+        "callbacks raise Exception subclasses (not bare BaseException); completion hooks, when set, return normally; sequential run() only "
+        "(run_parallel appears only as a history prefix)",
+        "a truthy non-bool checkpoint answer counts as 'returned true', a falsy one (None, 0, '', []) as 'returned false'",
         "'no later stage runs after a blocked or failed required stage' is asserted for required stages (weaker reading); a blocked optional "
         "stage that does not halt would only be recorded as an observation",
         "recovered stages: the reported factor is whatever the result says (statement fixes the factor only for normally completed stages)",
+        "checkpoint / handler objects are ordinary (truthy) callables",
     ]
 
 
